@@ -617,10 +617,11 @@ Init == /\ ColdInit
 
 -----------------------------------------------------------------------------
 (* Observable step record of the last action, in the vocabulary of ClusterProps *)
-Obs(al, ic, fs, ms, is, tk) ==
+Obs(al, ic, fs, ms, is, tk, rm) ==
   [i \in Inst |-> [alive |-> al[i], inc |-> ic[i], fsm |-> IF al[i] THEN fs[i] ELSE "DEAD",
                    master |-> IF al[i] THEN ms[i] ELSE 0, tick |-> IF al[i] THEN tk[i] ELSE 0,
-                   inst |-> IF al[i] THEN is[i] ELSE [j \in Inst |-> "STOPPED"]]]
+                   inst |-> IF al[i] THEN is[i] ELSE [j \in Inst |-> "STOPPED"],
+                   rem |-> IF al[i] THEN rm[i] ELSE [j \in Inst |-> 0]]]
 
 LocalVars(i) == <<fsm[i], master[i], inst[i], seen[i], rem[i], sm[i], mark[i], deg[i], q[i]>>
 LocalVarsP(i) == <<fsm'[i], master'[i], inst'[i], seen'[i], rem'[i], sm'[i], mark'[i], deg'[i], q'[i]>>
@@ -639,8 +640,8 @@ Rec ==
             ELSE IF kind = "Notify" THEN a[3] ELSE IF kind = "Stop" THEN a[2] ELSE 0,
       k |-> IF kind = "Deliver" THEN a[4] ELSE IF kind = "EndSync" THEN "end_sync"
             ELSE IF kind = "Notify" THEN "NOTIF_" \o a[4] ELSE kind,
-      pre |-> Obs(alive, inc, fsm, master, inst, tick),
-      post |-> Obs(alive', inc', fsm', master', inst', tick'),
+      pre |-> Obs(alive, inc, fsm, master, inst, tick, rem),
+      post |-> Obs(alive', inc', fsm', master', inst', tick', rem'),
       pubs |-> pubs', ipubs |-> ipubs', push |-> <<>>,
       \* INSTANCE_FAILURE notifications queued by the step (handle_exception)
       nfail |-> IF kind \in {"SendFail", "CheckFail", "ReqFail"} /\ Active(inst[a[2]][a[3]])
@@ -687,14 +688,14 @@ StepsC16 == [][P!StepFailures(g, Rec) \cap LabelsC16 = {}]_vars
 StepsOK == [][P!StepFailures(g, Rec) \subseteq KnownLabels]_vars
 \* C01 / C08: once the cluster has been calm for K rounds the terminal classification admits no failure
 CONSTANT K
-TerminalNow == P!TerminalFailures(Obs(alive, inc, fsm, master, inst, tick), ended)
+TerminalNow == P!TerminalFailures(Obs(alive, inc, fsm, master, inst, tick, rem), ended)
 \* (a start job kept in progress by the environment is not a settled cluster: nothing is demanded meanwhile)
 Held == \E i \in Inst : alive[i] /\ hold[i]
 Terminal == (calm >= K /\ ~Held) => TerminalNow \subseteq KnownLabels
 TerminalC01 == (calm >= K /\ ~Held) => "C01.Convergence" \notin TerminalNow
 TerminalC08 == (calm >= K /\ ~Held) => "C08.Progress" \notin TerminalNow
 \* C08: a decision refused by the transition table is not refused for ever (outside the known classes)
-NoRefusedForever == \A i \in Inst : (alive[i] /\ refused[i] >= 3) => P!Known_F1(Obs(alive, inc, fsm, master, inst, tick))
+NoRefusedForever == \A i \in Inst : (alive[i] /\ refused[i] >= 3) => P!Known_F1(Obs(alive, inc, fsm, master, inst, tick, rem))
 \* C16 in the model: no partial operation applied outside its domain
 NoErr == \A i \in Inst : ~err[i]
 \* vacuity witnesses (expected to be VIOLATED when listed as invariants: they show the antecedents are reachable)
